@@ -149,7 +149,9 @@ def mon_c05w(spec, run):
     from .monitors import mon_c01
     v, info = verdicts(spec, run)
     run.results["wire_info"] = info
-    bad = [(k, t) for p, k, t in v if p == "C05"]
+    # "... and leaves what the attribute reads unchanged (only a device report changes it)": a read that differs from the model's in a session
+    # with writes is this property's business too
+    bad = [(k, t) for p, k, t in v if p in ("C05", "C03")]
     # every PUT the object handed to the connection is written exactly once, in order, unchanged (C01's monitor on the same trace)
     bad += [("wire-" + k, t) for k, t in mon_c01(spec, run) if k in ("twice", "lost", "not-written", "framing", "foreign", "order", "thread-died")]
     return bad
